@@ -14,7 +14,10 @@ Main theorem: `C07_model_eq_spec`; the clauses of the property follow as corolla
 (`C07_pass_iff_aligned`, `C07_action_is_published_policy`, `C07_temp_failclosed`,
 `C07_bad_author_never_pass`, …); `C07_answer_timing_irrelevant` / `C07_pipeline_eq_spec` carry it
 through the asynchronous policy lookup of the pipeline (any schedule of DNS answers, any number of
-check blocks).  The laws are hypotheses: they are evaluated on the real
+check blocks); `C07_checks_eq_spec` / `C07_reply_ignores_check_wrapping` /
+`C07_reported_results_are_the_evaluated_ones` carry it through the way the checks hand their
+verdicts over (stage of the report, attached reason without action, own quarantine action, header
+fields, repeated references).  The laws are hypotheses: they are evaluated on the real
 libraries by the correspondence harness (`C07 laws` op; `C07_lawFailure_sound` says what its `ok`
 means) and a concrete instance is exhibited (`toyLaws`).
 -/
@@ -908,6 +911,116 @@ example : pipelineBody toyP toyDns (fun n => if n = n_sec then 0 else 3) [.addrs
 /-- an answer that is there before the early cancellation is used -/
 example : pipelineBodyWith (some 1) toyP toyDns (fun _ => 1) [.addrs [some n_ec]] [[.dkim .fail n_xc []], [.spf .fail n_xc n_xc]] 0 false
     = .refuse 550 5 7 1 := by decide
+
+
+/-! ## how a check hands its verdict over takes no part in verdict or action
+
+A check reports its authentication results at the connection, sender, recipient or body stage,
+bare or together with a `Reason` and no action of its own (`check.spf` leaving the decision to
+DMARC, or with action "ignore"), with an action of its own (quarantine), with header fields, and may
+be referenced by several blocks.  Every reported result is evaluated, exactly the reported ones
+are, and the decision is the specified one for the results put together. -/
+
+/-- a check's result without everything the DMARC decision must not depend on -/
+def bareCheck (c : CheckRes) : CheckRes := { c with reason := false, header := false, again := false }
+
+/-- agree up to attached reasons, header fields and repeated references -/
+def SameUpToWrapping (cs cs' : List CheckRes) : Prop := cs.map bareCheck = cs'.map bareCheck
+
+theorem bareCheck_phase (c : CheckRes) : (bareCheck c).phase = c.phase := rfl
+theorem bareCheck_results (c : CheckRes) : (bareCheck c).results = c.results := rfl
+theorem bareCheck_quarantine (c : CheckRes) : (bareCheck c).quarantine = c.quarantine := rfl
+
+theorem mergedResults_bare (cs : List CheckRes) : mergedResults (cs.map bareCheck) = mergedResults cs := by
+  unfold mergedResults
+  simp only [List.filter_map, List.map_map, Function.comp_def, bareCheck_phase, bareCheck_results]
+
+theorem mergedQuarantine_bare (flagged : Bool) (cs : List CheckRes) :
+    mergedQuarantine flagged (cs.map bareCheck) = mergedQuarantine flagged cs := by
+  simp only [mergedQuarantine, List.any_map, Function.comp_def, bareCheck_quarantine]
+
+theorem phase_le_two (c : CheckRes) : c.phase = 0 ∨ c.phase = 1 ∨ c.phase = 2 := by
+  unfold CheckRes.phase
+  cases h : c.stage <;> simp only [h] <;> (first | (split <;> simp) | simp)
+
+/-- Nothing is lost and nothing is invented on the way to DMARC: a result is evaluated iff some
+check reported it - at whatever stage, with whatever attached. -/
+theorem C07_reported_results_are_the_evaluated_ones (cs : List CheckRes) (r : AuthRes) :
+    r ∈ (mergedResults cs).flatten ↔ ∃ c ∈ cs, r ∈ c.results := by
+  simp only [mergedResults, List.mem_flatten, List.mem_flatMap, List.mem_map, List.mem_filter]
+  constructor
+  · rintro ⟨l, ⟨ph, _, c, ⟨hc, _⟩, rfl⟩, hr⟩
+    exact ⟨c, hc, hr⟩
+  · rintro ⟨c, hc, hr⟩
+    refine ⟨c.results, ⟨c.phase, ?_, c, ⟨hc, by simp⟩, rfl⟩, hr⟩
+    rcases phase_le_two c with h | h | h <;> simp [h]
+
+/-- The pipeline's decision for checks is `applyResults ∘ verify` on the results put together. -/
+theorem C07_checks_timing_irrelevant (P : Prims) (dns : Str → Lookup) (arrive : Str → Nat)
+    (hdr : List FieldParse) (cs : List CheckRes) (rnd : Nat) (flagged : Bool) :
+    pipelineChecks P dns arrive hdr cs rnd flagged =
+      applyResults (mergedQuarantine flagged cs) (verify P dns hdr (mergedResults cs).flatten rnd) := by
+  unfold pipelineChecks
+  rw [C07_answer_timing_irrelevant]
+
+/-- Attached reasons, header fields and repeated references do not change the reply. -/
+theorem C07_reply_ignores_check_wrapping (P : Prims) (dns : Str → Lookup) (arrive arrive' : Str → Nat)
+    (hdr : List FieldParse) (cs cs' : List CheckRes) (rnd : Nat) (flagged : Bool)
+    (h : SameUpToWrapping cs cs') :
+    pipelineChecks P dns arrive hdr cs rnd flagged = pipelineChecks P dns arrive' hdr cs' rnd flagged := by
+  rw [C07_checks_timing_irrelevant, C07_checks_timing_irrelevant,
+    ← mergedResults_bare cs, ← mergedResults_bare cs', ← mergedQuarantine_bare flagged cs,
+    ← mergedQuarantine_bare flagged cs', h]
+
+/-- The main theorem for checks: whatever comes with the verdicts and at whatever stage they are
+reported, the fate of the message is the specified one for the reported results. -/
+theorem C07_checks_eq_spec {P : Prims} {T : DomainTheory} {WF : Str → Prop} (L : Laws P T WF)
+    (dns : Str → Lookup) (arrive : Str → Nat) (hdr : List FieldParse) (cs : List CheckRes)
+    (rnd : Nat) (flagged : Bool)
+    (hdns : DnsRespects T dns)
+    (hwf : ∀ d, specAuthor hdr = some d → WF d)
+    (hrs : ∀ c ∈ cs, ∀ x ∈ c.results, WFRes WF x)
+    (h1 : ((mergedResults cs).flatten.filter isSpf).length ≤ 1)
+    (hpct : ∀ d r sub, specAuthor hdr = some d → discover T dns d = .found r sub →
+      r.pct = none ∨ r.pct = some 100)
+    (hrnd : rnd < 100) :
+    fateOf (pipelineChecks P dns arrive hdr cs rnd flagged) =
+      some (expect T dns hdr (mergedResults cs).flatten (mergedQuarantine flagged cs)).fate := by
+  unfold pipelineChecks
+  apply C07_pipeline_eq_spec L dns arrive hdr _ rnd _ hdns hwf _ h1 hpct hrnd
+  intro x hx
+  obtain ⟨c, hc, hr⟩ := (C07_reported_results_are_the_evaluated_ones cs x).mp hx
+  exact hrs c hc x hr
+
+example : SameUpToWrapping
+    [⟨0, .body, [.spf .fail [] []], true, false, true, true⟩]
+    [⟨0, .body, [.spf .fail [] []], false, false, false, false⟩] := rfl
+example : ¬ SameUpToWrapping
+    [⟨0, .body, [.spf .fail [] []], true, false, false, false⟩]
+    [⟨0, .body, [], true, false, false, false⟩] := by
+  intro h; simp [SameUpToWrapping, bareCheck] at h
+
+/-- The order in which the results are put together: command by command, not block by block (a
+source check reporting at the sender stage comes before a global check reporting at the
+recipient stage). -/
+example : mergedResults
+    [⟨0, .rcpt, [.other], false, false, false, false⟩, ⟨1, .sender, [.spf .fail [] []], true, false, false, false⟩,
+     ⟨2, .conn, [.dkim .pass [] []], false, false, false, false⟩]
+    = [[.spf .fail [] []], [.other], [.dkim .pass [] []]] := by decide
+
+/-- Not vacuous: the decision IS sensitive to a verdict that does not arrive.  `p=reject`, nothing
+aligned, the SPF verdict handed over with a reason and no action: refused … -/
+example : pipelineChecks toyP toyDns (fun _ => 0) [.addrs [some n_ec]]
+    [⟨0, .body, [.dkim .pass n_xc []], false, false, false, false⟩,
+     ⟨1, .body, [.spf .fail n_xc n_xc], true, false, false, false⟩] 0 false = .refuse 550 5 7 1 := by decide
+/-- … while without that check's results (what a runner that returns early on "reason, no action"
+hands to DMARC) the message would be accepted: SPF counts as not evaluated. -/
+example : pipelineChecks toyP toyDns (fun _ => 0) [.addrs [some n_ec]]
+    [⟨0, .body, [.dkim .pass n_xc []], false, false, false, false⟩,
+     ⟨1, .body, [], true, false, false, false⟩] 0 false = .accept false := by decide
+/-- a check's own quarantine action is kept when DMARC has nothing to add -/
+example : pipelineChecks toyP (fun _ => .notFound) (fun _ => 0) [.addrs [some n_ec]]
+    [⟨0, .sender, [.spf .softfail n_xc n_xc], true, true, false, false⟩] 0 false = .accept true := by decide
 
 
 /-! ## the executable law check means what `Laws` says, on the listed names -/
